@@ -358,13 +358,26 @@ func c19R2(c *Ctx) {
 				}
 				sl, isSlice := x.Call.Args[0].(*ssa.Slice)
 				two := false
+				inLoop := 1
 				if isSlice {
 					lo, ok1 := constInt(sl.Low)
 					hi, ok2 := constInt(sl.High)
 					two = ok1 && ok2 && hi-lo == 2
+					if !two && sl.Low != nil && sl.High != nil {
+						// text[start:start+2] with a counter that takes constant values
+						if vals, okC := constCounterValues(sl.Low); okC && lin(sl.High).add(lin(sl.Low), -1).String() == linConst(2).String() {
+							two = true
+							inLoop = len(vals)
+							for _, v := range vals {
+								if v < 1 || v+2 > 7 {
+									two = false
+								}
+							}
+						}
+					}
 				}
 				if base == 16 && checked && isSlice && two {
-					nComponents++
+					nComponents += inLoop
 				}
 				c.check(base == 16 && checked && isSlice && two, hname+"/parse", P.InstrPos(in), hname, "two hex digits parsed (unsigned) base 16, error checked", "a colour component is not parsed as two checked unsigned base-16 digits of the text (components above 255 or signs become possible)")
 			}
@@ -386,7 +399,36 @@ func provablyNonNilErr2(v ssa.Value, b *ssa.BasicBlock) bool {
 	}
 	// a local error variable created once by errors.New
 	w := unwrapLoad(v)
-	return w != v && provablyNonNilErr(w, b, 0)
+	if w != v && provablyNonNilErr(w, b, 0) {
+		return true
+	}
+	// a package-level error value: `var errX = errors.New(…)`, assigned by the initialiser only
+	if ld, ok := v.(*ssa.UnOp); ok && ld.Op == token.MUL {
+		if g, ok := ld.X.(*ssa.Global); ok && g.Pkg != nil {
+			n, good := 0, true
+			for _, m := range g.Pkg.Members {
+				f, ok := m.(*ssa.Function)
+				if !ok {
+					continue
+				}
+				for _, ff := range append([]*ssa.Function{f}, f.AnonFuncs...) {
+					eachInstr(ff, func(_ *ssa.BasicBlock, _ int, in ssa.Instruction) {
+						st, ok := in.(*ssa.Store)
+						if !ok || st.Addr != ssa.Value(g) {
+							return
+						}
+						n++
+						call, isCall := st.Val.(*ssa.Call)
+						if ff.Name() != "init" || !isCall || !(isLibCall(&call.Call, "errors", "", "New") || isLibCall(&call.Call, "fmt", "", "Errorf")) {
+							good = false
+						}
+					})
+				}
+			}
+			return n == 1 && good
+		}
+	}
+	return false
 }
 
 // consumerReq describes what a consumer needs from a config field.
@@ -437,7 +479,22 @@ func configFieldPath(v ssa.Value) (string, bool) {
 			if isNamed(x.Type(), "servitor/config", "Config") {
 				return strings.Join(parts, "."), len(parts) > 0
 			}
-			return "", false
+			// a local copy of a part of the configuration (`network := config.Network`),
+			// assigned once and never written through: reads of the copy are reads of the original
+			sts := storesToAlloc(x)
+			if len(sts) != 1 {
+				return "", false
+			}
+			for _, r := range refs(x) {
+				if fa, ok := r.(*ssa.FieldAddr); ok {
+					for _, rr := range refs(fa) {
+						if st, ok := rr.(*ssa.Store); ok && st.Addr == ssa.Value(fa) {
+							return "", false
+						}
+					}
+				}
+			}
+			v = sts[0].Val
 		default:
 			return "", false
 		}
@@ -764,8 +821,22 @@ func c19R4(c *Ctx) {
 					}
 				}
 				bound, isC := constInt(y)
-				if !isC || path(x) != vp {
+				if !isC {
 					continue
+				}
+				if path(x) != vp {
+					// the same setting read through a local copy of its section (`network := config.Network`)
+					same := false
+					if ux, ok := x.(*ssa.UnOp); ok && ux.Op == token.MUL {
+						if uv, ok := v.(*ssa.UnOp); ok && uv.Op == token.MUL {
+							px, okx := configFieldPath(ux.X)
+							pv, okv := configFieldPath(uv.X)
+							same = okx && okv && px == pv
+						}
+					}
+					if !same {
+						continue
+					}
 				}
 				if op == token.LSS {
 					bound--
@@ -862,4 +933,62 @@ func colourViaTable(P *Program, post, hex *ssa.Function, fld *types.Var) (bool, 
 		okLoop = true
 	})
 	return okLoop, why
+}
+
+// constCounterValues: v is a loop counter with a constant start, a constant
+// positive step and a constant exclusive (or inclusive) upper bound tested at
+// the loop head; the values it takes in the loop body.
+func constCounterValues(v ssa.Value) ([]int64, bool) {
+	ph, ok := v.(*ssa.Phi)
+	if !ok {
+		return nil, false
+	}
+	var init, step int64
+	haveInit, haveStep := false, false
+	for _, e := range ph.Edges {
+		if k, isC := constInt(e); isC {
+			if haveInit {
+				return nil, false
+			}
+			init, haveInit = k, true
+			continue
+		}
+		bo, ok := e.(*ssa.BinOp)
+		if !ok || bo.Op != token.ADD || bo.X != ssa.Value(ph) {
+			return nil, false
+		}
+		k, isC := constInt(bo.Y)
+		if !isC || k < 1 || (haveStep && k != step) {
+			return nil, false
+		}
+		step, haveStep = k, true
+	}
+	if !haveInit || !haveStep {
+		return nil, false
+	}
+	b := ph.Block()
+	iff, ok := b.Instrs[len(b.Instrs)-1].(*ssa.If)
+	if !ok {
+		return nil, false
+	}
+	cmp, ok := iff.Cond.(*ssa.BinOp)
+	if !ok || cmp.X != ssa.Value(ph) {
+		return nil, false
+	}
+	bound, isC := constInt(cmp.Y)
+	if !isC {
+		return nil, false
+	}
+	switch cmp.Op {
+	case token.LSS:
+	case token.LEQ:
+		bound++
+	default:
+		return nil, false
+	}
+	var out []int64
+	for x := init; x < bound && len(out) < 64; x += step {
+		out = append(out, x)
+	}
+	return out, len(out) > 0
 }
